@@ -497,15 +497,17 @@ def run_c12(seed, tier, log):
 
 
 # ----------------------------------------------------------------------------- suite S6: the front ends (C13)
-PFBIN = os.path.join(TARGET, 'release', 'pickle-fuzzer')
+TARGET_FRONT = os.path.join(BUILD, 'target-front')     # own target dir: the repo is built as the root package here
+ENV_FRONT = dict(ENV, CARGO_TARGET_DIR=TARGET_FRONT)
+PFBIN = os.path.join(TARGET_FRONT, 'release', 'pickle-fuzzer')
 PYPKG = os.path.join(BUILD, 'pypkg')
 
 
 def build_front_ends():
-    rc, out = sh('cargo build --offline --release --manifest-path %s --bin pickle-fuzzer' % os.path.join(REPO, 'Cargo.toml'), timeout=1800)
+    rc, out = sh('cargo build --offline --release --manifest-path %s --bin pickle-fuzzer' % os.path.join(REPO, 'Cargo.toml'), timeout=1800, env=ENV_FRONT)
     if rc != 0:
         raise Infra('building the pickle-fuzzer binary failed:\n' + out[-2000:])
-    rc, out = sh('cargo build --offline --release --features python-bindings --lib --manifest-path %s' % os.path.join(REPO, 'Cargo.toml'), timeout=1800)
+    rc, out = sh('cargo build --offline --release --features python-bindings --lib --manifest-path %s' % os.path.join(REPO, 'Cargo.toml'), timeout=1800, env=ENV_FRONT)
     if rc != 0:
         raise Infra('building the python extension failed:\n' + out[-2000:])
     pk = os.path.join(PYPKG, 'pickle_fuzzer')
@@ -514,7 +516,7 @@ def build_front_ends():
     for f in os.listdir(os.path.join(REPO, 'python', 'pickle_fuzzer')):
         if f.endswith('.py'):
             shutil.copy(os.path.join(REPO, 'python', 'pickle_fuzzer', f), pk)
-    shutil.copy(os.path.join(TARGET, 'release', 'libpickle_fuzzer.so'), os.path.join(pk, '_native.so'))
+    shutil.copy(os.path.join(TARGET_FRONT, 'release', 'libpickle_fuzzer.so'), os.path.join(pk, '_native.so'))
     # atheris is only imported by fuzzer.py; a stub serves when the interpreter lacks it
     stub = os.path.join(PYPKG, 'stub')
     os.makedirs(stub)
@@ -643,6 +645,7 @@ def run_s6(seed, tier, log):
         props.append({'id': cid, 'prop': 'C13', 'detail': detail})
         specs[cid] = what
     vecs = gen_s6_vectors(seed, tier)
+    vecs.append(dict(id='freg', protocol='2', seed=3, min=None, max=None, mutators=['bitflip'], rate=None, unsafe=0, ext=0, buf=0))
     vp = os.path.join(tmp, 'vectors.txt')
     open(vp, 'w').write('\n'.join(vec_line(v) for v in vecs) + '\n')
     p = subprocess.run([DRIVER, 'front', vp], stdout=subprocess.PIPE, stderr=subprocess.PIPE, text=True, env=ENV, timeout=600)
@@ -660,7 +663,7 @@ def run_s6(seed, tier, log):
     # 1. single-file mode
     for v in vecs:
         out = os.path.join(tmp, v['id'] + '.pkl')
-        argv = [PFBIN] + vec_argv(v) + [out]
+        argv = [PFBIN, out] + vec_argv(v)          # FILE first: --mutators takes any number of values
         q = subprocess.run(argv, stdout=subprocess.PIPE, stderr=subprocess.PIPE, timeout=300)
         nrun += 1
         what = 'cli single: pickle-fuzzer ' + ' '.join(vec_argv(v)) + ' FILE'
@@ -707,7 +710,9 @@ def run_s6(seed, tier, log):
             shutil.rmtree(dd, ignore_errors=True)
     # 4. the action wrapper
     script = os.path.join(REPO, 'scripts', 'action-run.sh')
-    for v in vecs[:: max(1, len(vecs) // (15 if tier == 'quick' else 80))]:
+    # regression (finding L): mutators directly followed by the output file
+    act_vecs = [vecs[-1]] + [v for v in vecs[:: max(1, len(vecs) // (15 if tier == 'quick' else 80))] if v['rate'] is None or v['rate'] >= 0]
+    for v in act_vecs:
         out = os.path.join(tmp, 'act_%s.pkl' % v['id'])
         q = subprocess.run(['bash', script], stdout=subprocess.PIPE, stderr=subprocess.PIPE, timeout=300,
                            env=dict({k: x for k, x in envb.items() if not k.startswith('INPUT_')}, **vec_env(v, out_file=out)))
